@@ -132,6 +132,40 @@ Proof.
   - destruct (copy_replace fuel (dir, m) (dest, m) f) as [f1|] eqn:C; [|discriminate]. intros E R. now apply (IH f1 f' n c E).
 Qed.
 
+(* ---- Move: os.Rename acts on NAMES - the source name's node (a file, or a link as it is) becomes the destination
+   name's node, whatever that name held; no link is followed on either side ---- *)
+Definition move_node (src dst : entry) (f : lfsys) : option lfsys :=
+  match lget src f with
+  | Some n => Some (lput dst n (ldel src f))
+  | None => None
+  end.
+Fixpoint moves (dir dest : str) (names : list str) (f : lfsys) : lfsys * bool :=
+  match names with
+  | [] => (f, true)
+  | n :: r => match move_node (dir, n) (dest, n) f with Some f1 => moves dir dest r f1 | None => (f, false) end
+  end.
+Theorem move_node_only_the_two_names src dst f f' : move_node src dst f = Some f' ->
+  forall e, entry_eqb e dst = false -> entry_eqb e src = false -> lget e f' = lget e f.
+Proof.
+  unfold move_node. destruct (lget src f) as [n|]; [|discriminate]. intros E e N1 N2. inversion E; subst.
+  rewrite lget_lput_other by exact N1. now apply lget_ldel_other.
+Qed.
+Theorem move_node_delivers src dst f f' n : move_node src dst f = Some f' -> lget src f = Some n ->
+  lget dst f' = Some n /\ (entry_eqb src dst = false -> lget src f' = None).
+Proof.
+  unfold move_node. intros E G. rewrite G in E. inversion E; subst. split; [apply lget_lput_same|].
+  intros N. rewrite lget_lput_other by exact N. apply lget_ldel_same.
+Qed.
+(* a run of moves out of dir into dest, succeeding or failing half way: a name that lies in neither directory keeps its
+   node - in particular what a link among the moved names pointed at is not touched *)
+Theorem moves_stay_in_the_two_directories dir dest : forall names f e,
+  str_eqb (fst e) dest = false -> str_eqb (fst e) dir = false -> lget e (fst (moves dir dest names f)) = lget e f.
+Proof.
+  induction names as [|n r IH]; intros f e N1 N2; cbn [moves]; [reflexivity|].
+  destruct (move_node (dir, n) (dest, n) f) as [f1|] eqn:M; [|reflexivity].
+  rewrite (IH f1 e N1 N2). apply (move_node_only_the_two_names _ _ f f1 M); now apply not_in_dest_neq.
+Qed.
+
 (* ---- the earlier copy: refuted by the finding's example ---- *)
 Definition ex_fs : lfsys :=
   [ ((s "upload", s "foo_1.0.tar.gz"), File (s "payload"));
@@ -182,3 +216,4 @@ Qed.
 Print Assumptions copy_replace_only_the_name.
 Print Assumptions copies_stay_in_the_destination.
 Print Assumptions copy_replace_is_fs_put.
+Print Assumptions moves_stay_in_the_two_directories.
